@@ -105,6 +105,7 @@ package floatingip
 //@   ensures [C05:updateattr-applies] err == nil ==> attrApplied(ci.allocatedFIPs[ipS], key, attr)
 //@   ensures [C01,C04:updateattr-frame] tablesSame(ci) && entriesSameExcept(old(ci.allocatedFIPs[ipS])) && ciFieldsSame(ci)
 //@   ensures [C05,C01:updateattr-failure-atomic] err != nil ==> storeUnchanged() && (old(ipS in ci.allocatedFIPs) ==> sameEntry(old(ci.allocatedFIPs[ipS])))
+//@   ensures [C04:updateattr-store-only-that-ip] StoreDom == old(StoreDom) && forall k string :: k != ipS ==> storeSameAt(k)
 //@   modifies FloatingIP.Key, FloatingIP.Policy, FloatingIP.UpdatedAt, FloatingIP.NodeName, FloatingIP.PodUid, StoreKey, StorePolicy, StoreNode, StoreUid, fresh FloatingIP.IP, fresh FloatingIP.pool, fresh FloatingIP.Labels, faults
 
 // ---- AllocateSpecificIP: only a free IP; relies on the store's create conflict between its two critical sections ----
@@ -182,6 +183,7 @@ package floatingip
 //@   ensures [C01,C06,C09:alloc-only-free-routable] result1 == nil ==> exists k string :: old(k in ci.unallocatedFIPs) && old(hasSubnet(ci.unallocatedFIPs[k].pool, netstr(nodeSubnet))) && k in ci.allocatedFIPs && !(k in ci.unallocatedFIPs) && attrApplied(ci.allocatedFIPs[k], key, attr) && fresh(ci.allocatedFIPs[k]) && ci.allocatedFIPs[k].pool == old(ci.unallocatedFIPs[k].pool) && ci.allocatedFIPs[k].IP == old(ci.unallocatedFIPs[k].IP) && tablesSameExcept(ci, k)
 //@   ensures [C06:alloc-noip-means-none-routable] result1 == ErrNoEnoughIP && nodeSubnet != nil ==> forall k string :: k in ci.unallocatedFIPs ==> !hasSubnet(ci.unallocatedFIPs[k].pool, netstr(nodeSubnet))
 //@   ensures [C05,C01:alloc-failure-atomic] result1 != nil ==> tablesSame(ci) && storeUnchanged()
+//@   ensures [C04:alloc-store-only-adds] forall k string :: old(StoreDom[k]) ==> storeSameAt(k)
 //@   modifies map(ci.allocatedFIPs), map(ci.unallocatedFIPs), fresh FloatingIP.*, StoreDom, StoreKey, StorePolicy, StoreNode, StoreUid, fresh elemsof(byte), faults
 //@   loop 0 invariant held[ptr(ci.cacheLock)] == 2 && inv(ci) && synced(ci) && tablesSame(ci) && storeUnchanged() && ciFieldsSame(ci) && allEntriesSame()
 //@   loop 0 invariant forall k string :: visited[k] && k in ci.unallocatedFIPs ==> !hasSubnet(ci.unallocatedFIPs[k].pool, nodeSubnetStr)
@@ -208,6 +210,7 @@ package floatingip
 //@   ensures [C08:multi-distinct] result1 == nil && len(ipranges) > 0 ==> forall i int, j int :: 0 <= i && i < j && j < len(ipranges) ==> ipstr(result0[i]) != ipstr(result0[j])
 //@   ensures [C08,C01:multi-others-untouched] result1 == nil && len(ipranges) > 0 ==> forall k string :: !(exists i int :: 0 <= i && i < len(ipranges) && ipstr(result0[i]) == k) ==> ((k in ci.allocatedFIPs) == old(k in ci.allocatedFIPs)) && ((k in ci.unallocatedFIPs) == old(k in ci.unallocatedFIPs)) && ci.allocatedFIPs[k] == old(ci.allocatedFIPs[k]) && ci.unallocatedFIPs[k] == old(ci.unallocatedFIPs[k])
 //@   ensures [C08,C05:multi-failure-leaves-tables] result1 != nil ==> tablesSame(ci)
+//@   ensures [C04:multi-store-only-adds] forall k string :: old(StoreDom[k]) ==> storeSameAt(k)
 //@   ensures [C08,C05:multi-failure-leaves-store-single-fault] result1 != nil && old(faults) <= 1 ==> storeSame()
 // the frame towards callers is not claimed for this function (callers treat it as modifying
 // everything); what it leaves unchanged is stated explicitly in the postconditions above
@@ -380,3 +383,34 @@ package floatingip
 //@   ensures [C03,C11:byprefix-lists-table-entries] result1 == nil && forall j int :: 0 <= j && j < len(result0) ==> result0[j] != nil && fresh(result0[j]) && infoOfEntry(ci, result0[j]) && (hasPrefix(result0[j].FloatingIP.Key, prefix) || prefix == "")
 //@   ensures result0 == nil || fresh(result0)
 //@   modifies fresh FloatingIPInfo.*, fresh nets.IPNet.*, fresh mapsof(map[string]sets.Empty), fresh elemsof(string), fresh elemsof(*FloatingIPInfo)
+//@ func (IPAM).UpdateAttr trusted
+//@   let ci = as(crdIpam, self)
+//@   let key = arg0
+//@   let ip = arg1
+//@   let attr = arg2
+//@   let ipS = ipstr(ip)
+//@   requires inv(ci) && synced(ci) && held[ptr(ci.cacheLock)] == 0
+//@   requires 0 <= attr.Policy && attr.Policy < 65536
+//@   ensures [C01,C05] inv(ci)
+//@   ensures [C05] synced(ci)
+//@   ensures [C04,C01:updateattr-needs-key-match] err == nil ==> old(ipS in ci.allocatedFIPs && ci.allocatedFIPs[ipS].Key == key)
+//@   ensures [C05:updateattr-applies] err == nil ==> attrApplied(ci.allocatedFIPs[ipS], key, attr)
+//@   ensures [C01,C04:updateattr-frame] tablesSame(ci) && entriesSameExcept(old(ci.allocatedFIPs[ipS])) && ciFieldsSame(ci)
+//@   ensures [C04:updateattr-store-only-that-ip] StoreDom == old(StoreDom) && forall k string :: k != ipS ==> storeSameAt(k)
+//@   modifies FloatingIP.Key, FloatingIP.Policy, FloatingIP.UpdatedAt, FloatingIP.NodeName, FloatingIP.PodUid, StoreKey, StorePolicy, StoreNode, StoreUid, fresh FloatingIP.IP, fresh FloatingIP.pool, fresh FloatingIP.Labels, faults
+//@ func (IPAM).AllocateInSubnetsAndIPRange trusted
+//@   let ci = as(crdIpam, self)
+//@   let key = arg0
+//@   let nodeSubnet = arg1
+//@   let ipranges = arg2
+//@   let attr = arg3
+//@   let sub = netstr(nodeSubnet)
+//@   requires inv(ci) && synced(ci) && held[ptr(ci.cacheLock)] == 0
+//@   requires 0 <= attr.Policy && attr.Policy < 65536
+//@   requires forall i int, r int {ipranges[i][r]} :: 0 <= i && i < len(ipranges) && 0 <= r && r < len(ipranges[i]) ==> nets.wfRange(ipranges[i][r])
+//@   ensures [C01,C05] inv(ci)
+//@   ensures [C05:multi-synced-single-fault] old(faults) <= 1 ==> synced(ci)
+//@   ensures [C01:multi-frame] allEntriesSame() && ciFieldsSame(ci)
+//@   ensures [C08,C05:multi-failure-leaves-tables] result1 != nil ==> tablesSame(ci)
+//@   ensures [C04:multi-store-only-adds] forall k string :: old(StoreDom[k]) ==> storeSameAt(k)
+//@   modifies all
